@@ -32,6 +32,8 @@ def gen_setup(rng, decimal=False):
         trs.append([[rng.randint(0, W * step) / float(step), rng.randint(0, H * step) / float(step)] for _ in range(n)])
     trs[0][0] = [0.0, 0.0]
     trs[0][-1] = [float(W), float(H)]                 # the bounding box is [0,W] x [0,H]
+    if rng.random() < 0.4:                            # ... spanned by interior vertices of a curved feature, its ends (the nodes of a network edge) lying inside
+        trs[0] = [[rng.randint(1, W * step - 1) / float(step), rng.randint(1, H * step - 1) / float(step)]] + trs[0] + [[rng.randint(1, W * step - 1) / float(step), rng.randint(1, H * step - 1) / float(step)]]
     how = rng.choice(['collection', 'collection', 'network', 'incremental'])
     extra = {'how': how, 'first': rng.randint(1, ntr)}
     if decimal:
